@@ -215,3 +215,12 @@ def model_bytes(model, s):
             b = model.eval(b, model_completion=True).as_long()
         out.append(b)
     return bytes(out)
+
+
+def skey(s):
+    """structural identity of a string value (stable across paths, unlike id())"""
+    if isinstance(s, (bytes, bytearray)):
+        return bytes(s)
+    bs = tuple(b if isinstance(b, int) else ('z', b.get_id()) for b in s.bytes)
+    ln = s.length if isinstance(s.length, int) else ('z', s.length.get_id())
+    return (bs, ln)
